@@ -123,9 +123,24 @@ def run(c):
         shutil.rmtree(d, ignore_errors=True)
         return i, sid, rows, ops, rc, out
 
+    # directed histories run through the same job: inputs of many segments around the size of the engine's bounded histories
+    directed = c1.long_input_histories()
+    if quick:
+        directed = [directed[k] for k in sorted(c.rng.sample(range(len(directed)), 60))] + [h for h in directed if h[1][2].endswith(" " + "6131" * 25) and h[1][4] == "commit"][:2]
+    stats["directed_long_inputs"] = len(directed)
+
+    def directed_job(k):
+        sid, ops = directed[k]
+        d = os.path.join(c.work, "dl%d" % k)
+        shutil.copytree(base, d)
+        rows = [("a", "啊", "", ""), ("a", "阿", "", ""), ("ab", "阿爸", "", ""), ("b", "吧", "", "")]
+        rc, out = run_script(exe, d, sc.table_lines(rows) + ops)
+        shutil.rmtree(d, ignore_errors=True)
+        return k, sid, rows, ops, rc, out
+
     crashes = []
     with ThreadPoolExecutor(WORKERS) as ex:
-        for i, sid, rows, ops, rc, out in ex.map(fuzz_job, range(n_fuzz)):
+        for i, sid, rows, ops, rc, out in list(ex.map(fuzz_job, range(n_fuzz))) + list(ex.map(directed_job, range(len(directed)))):
             stats["fuzz_histories"] += 1
             stats["fuzz_ops"] += len(ops)
             for o in ops:
